@@ -133,6 +133,17 @@ def model_str(m, limit=14):
     return ", ".join(items[:limit])
 
 
+def no_panic_summary(res, label, paths):
+    """C01 (slice side): no path of the executed MIR bodies reaches a panic edge (assert terminator, expect/unwrap on the wrong variant,
+    out-of-bounds index) for any value of the symbolic fields"""
+    bad = [p for p in paths if p["status"] != "ok"]
+    if bad:
+        for p in bad[:3]:
+            res.add(f"C01.no_panic({label}, engine B)", "violated", f"{p['status']}; decisions={p['decisions'][:40]}; last events={p['events'][-3:]}")
+    else:
+        res.add(f"C01.no_panic({label}, engine B)", "holds", f"{len(paths)} paths, none reaches a panic edge")
+
+
 def is_ok(v):
     return isinstance(v, Enum) and v.variant == "Ok"
 
@@ -676,9 +687,9 @@ def lemma_L5(prog, res):
     solver = new_solver()
     fl = z3.BitVec("file_len", 64)
     n_ok = n_err = 0
+    no_panic_summary(res, "minimal_parse", bp)
     for p in bp:
         if p["status"] != "ok":
-            res.add("C01.no_panic(minimal_parse, engine B)", "violated", p["status"])
             continue
         tails = [ev for ev in p["events"] if ev[0] == "parse_tail"]
         if not tails:
@@ -990,9 +1001,9 @@ def lemma_L8(prog, res, classes=("ELF64",)):
             res.stats["paths"] += bst["paths"]
             solver = new_solver()
             counts = dict(some=0, none=0, err=0)
+            no_panic_summary(res, name, bp)
             for p in bp:
                 if p["status"] != "ok":
-                    res.add(f"C01.no_panic({name}, engine B)", "violated", p["status"])
                     continue
                 st = p["env"]["tables"]
                 fl = p["env"]["file_len"]
@@ -1034,9 +1045,10 @@ def lemma_L8(prog, res, classes=("ELF64",)):
             res.add(f"L8.encode({name})", "inconclusive", str(u))
             bp = []
         solver = new_solver()
+        if bp:
+            no_panic_summary(res, name, bp)
         for p in bp:
             if p["status"] != "ok":
-                res.add(f"C01.no_panic({name}, engine B)", "violated", p["status"])
                 continue
             st = p["env"]["tables"]
             fl = p["env"]["file_len"]
@@ -1070,9 +1082,10 @@ def lemma_L8(prog, res, classes=("ELF64",)):
             res.add(f"L8.encode({name})", "inconclusive", str(u))
             bp = []
         solver = new_solver()
+        if bp:
+            no_panic_summary(res, name, bp)
         for p in bp:
             if p["status"] != "ok":
-                res.add(f"C01.no_panic({name}, engine B)", "violated", p["status"])
                 continue
             st = p["env"]["tables"]
             fl = p["env"]["file_len"]
@@ -1138,9 +1151,7 @@ def lemma_L6(prog, res, cls="ELF64"):
     res.stats["paths"] += cst["paths"]
     solver = new_solver()
     ok_c = [p for p in cp if p["status"] == "ok" and is_ok(p["value"])]
-    for p in cp:
-        if p["status"] != "ok":
-            res.add(f"C01.no_panic(find_common_data[{cls}], engine B)", "violated", p["status"])
+    no_panic_summary(res, f"find_common_data[{cls}]", cp)
     for m, (tp, tsol, tst) in targeted.items():
         res.stats["queries"] += tst["queries"]
         res.stats["paths"] += tst["paths"]
@@ -1223,9 +1234,9 @@ def lemma_L9(prog, res, cls="ELF64"):
     res.stats["paths"] += bst["paths"]
     solver = new_solver()
     counts = dict(some=0, none=0, err=0)
+    no_panic_summary(res, name, bp)
     for p in bp:
         if p["status"] != "ok":
-            res.add(f"C01.no_panic({name}, engine B)", "violated", p["status"])
             continue
         st = p["env"]["tables"]
         fl = p["env"]["file_len"]
@@ -1345,9 +1356,9 @@ def lemma_byname(prog, res, cls="ELF64"):
     okf = model.F("strtab_entry_is_terminated_utf8", model.BV64, model.BV64, z3.BoolSort())
     idf = model.F("strtab_entry_content", model.BV64, model.BV64, model.BV64)
     counts = dict(some=0, none=0)
+    no_panic_summary(res, name, bp)
     for p in bp:
         if p["status"] != "ok":
-            res.add(f"C01.no_panic({name}, engine B)", "violated", p["status"])
             continue
         v = p["value"]
         if not is_ok(v):
